@@ -222,6 +222,11 @@ func (u *under) Read(p []byte) (int, error) {
 			return 0, nil
 		case "F":
 			return 0, errTransport
+		case "X": // bytes AND a transport error in one call
+			n := min(min(len(p), max(s.N, 1)), len(u.rem))
+			copy(p, u.rem[:n])
+			u.rem = u.rem[n:]
+			return n, errTransport
 		default:
 			k = min(len(p), max(s.N, 1))
 		}
@@ -287,6 +292,8 @@ func genBody(r *hx.Rand) *bodyCase {
 	ill := r.Chance(1, 5)
 	for i := 0; i < ns; i++ {
 		switch {
+		case ill && r.Chance(1, 4):
+			c.Script = append(c.Script, stepT{K: "X", N: hx.Pick(r, []int{lim, lim - 1, lim + 1, 1, r.Range(1, lim+3)})})
 		case ill && r.Chance(1, 3):
 			c.Script = append(c.Script, stepT{K: hx.Pick(r, []string{"Z", "F", "Z"})})
 		case r.Chance(1, 3):
@@ -301,6 +308,13 @@ func genBody(r *hx.Rand) *bodyCase {
 		c.Script = []stepT{{K: "D", N: lim}}
 		if r.Chance(1, 2) {
 			c.Script = []stepT{{K: "D", N: max(lim-1, 1)}, {K: "D", N: 1}}
+		}
+		if r.Chance(1, 4) {
+			// the read that reaches the limit exactly also reports a transport error
+			c.Script = []stepT{{K: "X", N: lim}}
+			if r.Chance(1, 2) {
+				c.Script = []stepT{{K: "D", N: max(lim-1, 1)}, {K: "X", N: 1}}
+			}
 		}
 		nz := hx.Pick(r, []int{0, 1, 2, 3, 99, 100, 101})
 		for i := 0; i < nz; i++ {
@@ -396,6 +410,13 @@ func (c *bodyCase) emit(id string, st *hx.Stats) string {
 		switch s.K {
 		case "D":
 			l.Tok("D").Nat(s.N)
+			pos += max(s.N, 1)
+			if pos == int(c.Limit) {
+				boundaryAtLimit = true
+			}
+		case "X":
+			l.Tok("X").Nat(s.N)
+			ill = true
 			pos += max(s.N, 1)
 			if pos == int(c.Limit) {
 				boundaryAtLimit = true
@@ -1996,6 +2017,9 @@ func fixedCases() []caseT {
 		{Kind: "E", Err: &errCase{Which: "B", Limit: 1048575}},
 		{Kind: "E", Err: &errCase{Which: "B", Limit: 1023}},
 		{Kind: "E", Err: &errCase{Which: "A", Realm: B("Restricted")}},
+		// the read that reaches the limit exactly hands out its bytes together with a transport error
+		{Kind: "B", Body: &bodyCase{Limit: 5, Body: B("1234567"), Script: []stepT{{K: "X", N: 5}}, Dflt: 8}},
+		{Kind: "B", Body: &bodyCase{Limit: 5, Body: B("12345"), Script: []stepT{d(4), {K: "X", N: 1}}, Dflt: 8}},
 		// the handler streams the body with io.Copy / reads it with io.ReadAll: one over the limit without Content-Length
 		{Kind: "B", Body: &bodyCase{Limit: 5, Body: B("123456"), Style: "copy", Dflt: 8}},
 		{Kind: "B", Body: &bodyCase{Limit: 5, Body: B("12345"), Style: "copy", EofWithLast: true, Dflt: 8}},
